@@ -23,8 +23,9 @@ type dcase struct {
 	Kind     string  `json:"kind"` // filter | router
 	DelayUs  int     `json:"delay_us"`
 	JitterUs int     `json:"jitter_us"`
-	Plans    [][]int `json:"plans"`             // per sender: gap in microseconds before each datagram
-	Restart  bool    `json:"restart,omitempty"` // router: Stop and Start again right after the last hand-in, with datagrams still waiting out their delay
+	Plans    [][]int `json:"plans"`              // per sender: gap in microseconds before each datagram
+	NatDrop  bool    `json:"nat_drop,omitempty"` // router2: the LAN router is a 1:1 NAT and every second sender uses a source address without a pair, so its datagrams are dropped (silently) by the NAT in between the others
+	Restart  bool    `json:"restart,omitempty"`  // router: Stop and Start again right after the last hand-in, with datagrams still waiting out their delay
 	Seed     int64   `json:"seed"`
 }
 
@@ -101,6 +102,12 @@ func genDelayCase(rng *rand.Rand, kind string) dcase {
 	if kind == "router" && c.DelayUs >= 10000 && rng.Intn(2) == 0 {
 		c.Restart = true
 	}
+	if kind == "router2" && rng.Intn(2) == 0 {
+		c.NatDrop = true
+		if len(c.Plans) < 2 {
+			c.Plans = append(c.Plans, append([]int{}, c.Plans[0]...))
+		}
+	}
 	return c
 }
 
@@ -161,15 +168,20 @@ func runDelayCase(c dcase, r *res.Result) (string, string) {
 		if err != nil {
 			return "delay:ctor", err.Error()
 		}
-		lan, err := vnet.NewRouter(&vnet.RouterConfig{CIDR: "192.168.0.0/24", MinDelay: delay, LoggerFactory: vn.Silent(),
-			NATType: &vnet.NATType{MappingBehavior: vnet.EndpointIndependent, FilteringBehavior: vnet.EndpointIndependent}})
+		lanCfg := &vnet.RouterConfig{CIDR: "192.168.0.0/24", MinDelay: delay, LoggerFactory: vn.Silent(),
+			NATType: &vnet.NATType{MappingBehavior: vnet.EndpointIndependent, FilteringBehavior: vnet.EndpointIndependent}}
+		if c.NatDrop {
+			lanCfg.NATType = &vnet.NATType{Mode: vnet.NATModeNAT1To1}
+			lanCfg.StaticIPs = []string{"10.9.0.50/192.168.0.1"}
+		}
+		lan, err := vnet.NewRouter(lanCfg)
 		if err != nil {
 			return "delay:ctor", err.Error()
 		}
 		if err := wan.AddRouter(lan); err != nil {
 			return "delay:ctor", err.Error()
 		}
-		src := &vnet.VerifNIC{StaticIPs: []net.IP{net.ParseIP("192.168.0.1").To4()}, OnChunk: func(vnet.Chunk) {}}
+		src := &vnet.VerifNIC{StaticIPs: []net.IP{net.ParseIP("192.168.0.1").To4(), net.ParseIP("192.168.0.9").To4()}, OnChunk: func(vnet.Chunk) {}}
 		if err := lan.AddNet(src); err != nil {
 			return "delay:ctor", err.Error()
 		}
@@ -228,7 +240,12 @@ func runDelayCase(c dcase, r *res.Result) (string, string) {
 	sent := map[vnet.Chunk]*drec{}
 	byTag := map[string]*drec{}
 	total := 0
-	for _, p := range c.Plans {
+	natDropped := func(s int) bool { return c.Kind == "router2" && c.NatDrop && s%2 == 1 }
+	for s, p := range c.Plans {
+		if natDropped(s) {
+			r.Count("datagrams_dropped_by_nat_in_between", int64(len(p)))
+			continue // dropped by the 1:1 NAT (no pair for their source): never forwarded, and must not hold up the others
+		}
 		total += len(p)
 	}
 	var smu sync.Mutex
@@ -246,6 +263,9 @@ func runDelayCase(c dcase, r *res.Result) (string, string) {
 				srcIP := "10.9.0.1"
 				if c.Kind == "router2" {
 					srcIP = "192.168.0.1"
+					if natDropped(s) {
+						srcIP = "192.168.0.9"
+					}
 				}
 				ch := vnet.VerifNewChunkUDP(vn.UDP(srcIP, 4000+s), vn.UDP(sinkIP, 5000), pl)
 				rec := &drec{sender: s, seq: i, hash: vn.Hash(pl), src: ch.SourceAddr().String(), dst: ch.DestinationAddr().String()}
@@ -388,6 +408,9 @@ wait:
 			}
 			seenTag[g.tag] = true
 		}
+		if rec != nil && natDropped(rec.sender) {
+			return "delay:" + c.Kind + ":nat-drop-forwarded", fmt.Sprintf("datagram sender=%d seq=%d has no 1:1 pair for its source and was forwarded all the same", rec.sender, rec.seq)
+		}
 		if rec == nil {
 			return "delay:" + c.Kind + ":invented", fmt.Sprintf("sink received chunk tag=%s that was never handed in", g.tag)
 		}
@@ -432,7 +455,7 @@ func trimStack(s string) string {
 }
 
 func runDelay(tier string, seed int64, shard, nshard int, r *res.Result, replay *dcase) {
-	r.Rule = "arrival plans (bursts, spacing <<, ~, >> delay, arrivals timed at head-due +-50us, 1-4 concurrent senders) against DelayFilter.Run and against a Router with MinDelay/MaxJitter (in half of the router cases with delay >= 10 ms the router is stopped and started again right after the last hand-in, with datagrams still queued), both with recording source/sink NICs; oracle: sink stamp - stamp taken before hand-in >= delay, per-sender FIFO, exactly once, same chunk object and payload hash, recovered panic = violation, bounded progress decided by a canary timer + parked-loop inspection; distinct = (subject, delay, jitter, senders, size class) cells"
+	r.Rule = "arrival plans (bursts, spacing <<, ~, >> delay, arrivals timed at head-due +-50us, 1-4 concurrent senders) against DelayFilter.Run and against a Router with MinDelay/MaxJitter (in half of the two-router cases the inner router is a 1:1 NAT that silently drops every second sender's datagrams in between the others; in half of the router cases with delay >= 10 ms the router is stopped and started again right after the last hand-in, with datagrams still queued), both with recording source/sink NICs; oracle: sink stamp - stamp taken before hand-in >= delay, per-sender FIFO, exactly once, same chunk object and payload hash, recovered panic = violation, bounded progress decided by a canary timer + parked-loop inspection; distinct = (subject, delay, jitter, senders, size class) cells"
 	r.Assumptions = []string{"lower bounds compare a stamp taken before hand-in with one taken inside the sink: scheduling delay can only increase the difference", "eventual forwarding is checked as bounded progress (canary due 1s after the last due time, loop parked, 3 samples)"}
 	if replay != nil {
 		r.Eval(1)
